@@ -59,7 +59,7 @@ class AbsCat:
             s0[0:8] = marker
         s1[4] = self.cycle
         s1[5] = 8 * len(self.files)
-        s1[6] = ((self.opt & 3) << 4) | ((self.total >> 8) & 3)
+        s1[6] = ((self.opt & 3) << 4) | ((self.total >> 8) & 3) | (((self.total >> 10) & 1) << 2)   # bit 10: Watford large disc
         s1[7] = self.total & 255
         for i, f in enumerate(self.files):
             s0[8 + 8 * i: 16 + 8 * i] = f.name_record()
